@@ -230,6 +230,24 @@ def gen_cases(run, scale):
         p, c = rng.choice(PC)
         s, cl = gen_string(rng)
         add("parse", p, c, {"str": s}, scls=cl)
+    for sp, sc in PC:                      # STIXdatetime values parsed earlier at another precision/constraint
+        for tp, tc in PC:
+            for _ in range(max(1, int(24 * scale))):
+                inp = dt_input()
+                if inp["dt"][6] % 1000 == 0:
+                    inp["dt"][6] = rng.choice([1, 999, 1001, 123456, 120001, 999999, 500500])
+                inp["src"] = [sp, sc]
+                r = rng.random()
+                if r < 0.45:
+                    add("prop", tp, tc, inp)
+                elif r < 0.7:
+                    add("parse", tp, tc, inp)
+                else:
+                    routes = [rt for rt in sorted(ROUTES) if ROUTES[rt] == (tp, tc)]
+                    if routes:
+                        add("obj", tp, tc, inp, route=rng.choice(routes))
+                    else:
+                        add("prop", tp, tc, inp)
     for _ in range(int(300 * scale)):      # sub-second UTC offsets (legal in Python >= 3.7)
         p, c = rng.choice(PC)
         add(rng.choice(["parse", "prop"]), p, c, dt_input(subsecond=True))
@@ -268,6 +286,15 @@ def boundary_grid():
         for route in sorted(ROUTES):
             p, c = ROUTES[route]
             cases.append({"k": "obj", "p": p, "c": c, "route": route, "in": {"dt": [2017, 3, 4, 5, 6, 7, us], "off": None, "tz": "std"}})
+    # a timestamp cleaned at one precision/constraint handed to a property of every other one
+    for us in (1, 999, 1001, 123456, 999999):
+        for sp, sc in PC:
+            for tp, tc in PC:
+                inp = {"dt": [2016, 2, 29, 23, 59, 59, us], "off": 0, "tz": "utc", "src": [sp, sc]}
+                cases.append({"k": "prop", "p": tp, "c": tc, "in": inp})
+                for route in sorted(ROUTES):
+                    if ROUTES[route] == (tp, tc):
+                        cases.append({"k": "obj", "p": tp, "c": tc, "route": route, "in": inp})
     return cases
 
 
@@ -282,7 +309,10 @@ def coq_dt(f):
     return "(dt %s)" % " ".join(common.coq_Z(x) for x in f)
 
 
-def coq_input(inp):
+def coq_input(inp, nm="NaiveKept"):
+    if "src" in inp:
+        plain = {k: v for k, v in inp.items() if k != "src"}
+        return "(reparse %s %s %s %s)" % (nm, COQ_P[inp["src"][0]], COQ_C[inp["src"][1]], coq_input(plain))
     if "str" in inp:
         return "(InStr %s)" % common.coq_ustr(inp["str"])
     if "date" in inp:
@@ -295,8 +325,8 @@ def model_term(case, ym, nm="NaiveKept"):
     if case["k"] == "fmt":
         return "show_text (format_dt %s %s %s %s %s)" % (ym, p, c, coq_dt(case["in"]["dt"]), coq_off(case["in"].get("off")))
     if case["k"] == "parse":
-        return "show_parsed %s %s %s %s %s" % (nm, ym, p, c, coq_input(case["in"]))
-    return "show_text (write %s %s %s %s %s)" % (nm, ym, p, c, coq_input(case["in"]))
+        return "show_parsed %s %s %s %s %s" % (nm, ym, p, c, coq_input(case["in"], nm))
+    return "show_text (write %s %s %s %s %s)" % (nm, ym, p, c, coq_input(case["in"], nm))
 
 
 # --------------------------------------------------------------------------
@@ -347,6 +377,9 @@ def input_instant(inp):
         return instant(*inp["date"], 0, 0, 0, None)
     f = inp["dt"]
     t = instant(*f[:6], None) + f[6]
+    if "src" in inp:        # already truncated once, at the precision it was first parsed with
+        u = UNIT.get(tuple(inp["src"]), 1)
+        t = (t // u) * u
     return t - (inp.get("off") or 0)
 
 
@@ -522,6 +555,8 @@ def check(run):
         run.violations += oracle(extra, extra_impl, stats)
         run.coverage["search_cases"] = len(extra)
     run.coverage["out_of_domain"] = stats
+    run.coverage["failing_cases_found"] = len(run.violations)
+    run.violations[:] = first_per_kind(run.violations)
     run.coverage["trusted_base"] += [
         "coq/Model/Timestamp.v, coq/Model/Calendar.v: hand-written model of stix2/utils.py timestamp code and of CPython datetime/strptime/strftime (correspondence-checked each run)",
         "coq/Spec/TimestampSpec.v: strict reader of YYYY-MM-DDTHH:MM:SS[.d+]Z (the specification the model is proved against)",
@@ -535,6 +570,17 @@ def check(run):
         "the code on them) but are outside the oracle; counts under coverage.out_of_domain",
         "strings the parser rejects (e.g. 7+ fractional digits) are outside 'accepted timestamp strings' (acceptance is C03's concern)",
     ]
+
+
+def first_per_kind(violations):
+    """One replay per kind of failure is enough (the first found); the count of the others goes to the evidence."""
+    seen, out = set(), []
+    for v in violations:
+        k = (str(v.replay.get("check")).split(" (")[0].split(": ")[0].split(" '")[0], v.finding)
+        if k not in seen:
+            seen.add(k)
+            out.append(v)
+    return out
 
 
 def replay(payload):
